@@ -2,7 +2,7 @@
 
 Both dispatch tables (`can_cast_types` and `cast_with_options`, each a `match (from, to)` with ~200
 arms, guards and helper predicates) are evaluated for every ordered pair of DataType constructors
-(41 x 41 today, read from the enum definition).  can_cast is evaluated three-valued (helper predicates
+(41 constructors, refined by TimeUnit / IntervalUnit to 55 types: ~2800 ordered pairs, read from the enum definitions).  can_cast is evaluated three-valued (helper predicates
 such as is_numeric are evaluated on their own bodies; guards on payloads are unknown); cast support is
 'an implementation arm is reachable once the dispatch is resolved for that pair'.  A violation is a
 pair with can_cast definitely true and cast definitely routed to the unsupported-error arm."""
@@ -10,25 +10,53 @@ from . import facts as factsmod, dtm, flow
 from .mirlib import Body
 
 DT = "call:Array::data_type"
+# one level of payload refinement: constructors whose unit decides which arm is taken
+REFINE = {"Timestamp": "arrow_schema::datatype::TimeUnit", "Time32": "arrow_schema::datatype::TimeUnit", "Time64": "arrow_schema::datatype::TimeUnit",
+          "Duration": "arrow_schema::datatype::TimeUnit", "Interval": "arrow_schema::datatype::IntervalUnit"}
+# no array of these types can exist (PrimitiveArray::with_data_type rejects them), so they are not *source* types of a cast
+NO_ARRAYS = {"Time32(Microsecond)", "Time32(Nanosecond)", "Time64(Second)", "Time64(Millisecond)"}
+
+
+def refined_universe(F, variants):
+    out = []
+    for n, d in variants:
+        if n in REFINE:
+            for un, ud in dtm.enum_variants(F, REFINE[n]):
+                out.append(("%s(%s)" % (n, un), n, d, (("@" + n, "0"), ud)))
+        else:
+            out.append((n, n, d, None))
+    return out
 
 
 def run(ck, tier):
     F = factsmod.Facts("ws")
     ck.rule("C13.can-cast-implies-cast", "for every ordered pair of DataType constructors: can_cast_types definitely true => cast_with_options reaches an "
-            "implementation arm (not the 'Casting from .. to .. not supported' arm)", floor=400)
+            "implementation arm (not the 'Casting from .. to .. not supported' arm)", floor=700)
     variants = dtm.enum_variants(F, "arrow_schema::datatype::DataType")
     cb = Body(F.fn("arrow_cast::cast::cast_with_options"))
     cache = {}
     stats = {"pairs": 0, "can_true": 0, "can_false": 0, "can_unknown": 0, "cast_supported": 0, "cast_unsupported": 0}
     oks_all = set(flow.ok_exits(cb))
-    for fname, fd in variants:
-        for tname, td in variants:
+    universe = refined_universe(F, variants)
+    ck.count("refined_types", len(universe))
+    for fname, fbase, fd, fp in universe:
+        if fname in NO_ARRAYS:
+            continue
+        for tname, tbase, td, tp in universe:
             stats["pairs"] += 1
-            can = dtm.eval_bool(F, "arrow_cast::cast::can_cast_types", {1: fd, 2: td}, cache=cache)
-            sup = dtm.supported_under(cb, {DT: fd, 2: td})
+            a = {1: fd, 2: td}
+            c = {DT: fd, 2: td}
+            if fp:
+                a[(1, fp[0])] = fp[1]
+                c[(DT, fp[0])] = fp[1]
+            if tp:
+                a[(2, tp[0])] = tp[1]
+                c[(2, tp[0])] = tp[1]
+            can = dtm.eval_bool(F, "arrow_cast::cast::can_cast_types", a, cache=cache)
+            sup = dtm.supported_under(cb, c)
             if fname == tname and sup is False:
                 # identical types return early (`from_type == to_type`) before the dispatch
-                r = dtm.reach_under(cb, {DT: fd, 2: td})
+                r = dtm.reach_under(cb, c)
                 sup = bool(oks_all & r)
             if sup is None:
                 ck.bad("C13.can-cast-implies-cast", "dispatch", "cast_with_options no longer dispatches on (array.data_type(), to_type) (anchor moved)", None)
